@@ -120,4 +120,88 @@ theorem Rel.find_mem {h : Nat → Nat} {pt : PTable} {t : Table} (hr : Rel pt t)
   have : t.find h k = some id := by injection hf
   exact ((hi.find_some_iff k id).1 this).1
 
+theorem upd_ne {α : Type} (f : Nat → α) (i : Nat) (x : α) (j : Nat) (h : j ≠ i) : upd f i x j = f j := by simp [upd, h]
+
+theorem setPrev_next (t : PTable) (i : Nat) (v : Option Nat) (j : Nat) : ((t.setPrev i v).items j).next = (t.items j).next := by
+  by_cases e : j = i <;> simp [PTable.setPrev, upd, e]
+theorem setPrevOf_next (t : PTable) (x : Nxt) (v : Option Nat) (j : Nat) : ((t.setPrevOf x v).items j).next = (t.items j).next := by
+  cases x with
+  | stl o => rfl
+  | item i => exact setPrev_next t i v j
+theorem setNext_next_ne (t : PTable) (p : Nat) (x : Nxt) (j : Nat) (hj : j ≠ p) : ((t.setNext p x).items j).next = (t.items j).next := by
+  simp [PTable.setNext, upd, hj]
+
+theorem withBuckets_fields (pt : PTable) :
+    pt.withBuckets.items = pt.items ∧ pt.withBuckets.freeItem = pt.freeItem ∧ pt.withBuckets.blocks = pt.blocks ∧
+    pt.withBuckets.ipb = pt.ipb ∧ pt.withBuckets.endPrev = pt.endPrev ∧ pt.withBuckets.cap = pt.cap ∧
+    (∀ b, pt.withBuckets.heads b = if pt.allocated then pt.heads b else none) := by
+  unfold PTable.withBuckets PTable.allocBuckets
+  by_cases ha : pt.allocated = true <;> simp [ha]
+
+/-- in a represented table the item the allocator hands out is neither the predecessor of an iterator's item nor the head of
+    a bucket chain (after the allocation) -/
+theorem Rel.link_facts {h : Nat → Nat} {pt : PTable} {t : Table} (hr : Rel pt t) (hi : t.Inv h) (kind : Kind) (p c : Nat) :
+    (pt.withBuckets.allocItem kind).2.prevOf (nxtAt pt.self t.order p) ≠ some (pt.withBuckets.allocItem kind).1 ∧
+    (pt.withBuckets.allocItem kind).2.heads c ≠ some (pt.withBuckets.allocItem kind).1 := by
+  obtain ⟨w_items, w_free, w_blocks, w_ipb, w_endPrev, w_cap, w_heads⟩ := withBuckets_fields pt
+  obtain ⟨e_id, _, _, e_fields, e_prev, _, _, _, e_heads, _, e_endPrev, _⟩ :=
+    alloc_sim kind pt.withBuckets t (by rw [w_items, w_free]; exact hr.free) (by rw [w_blocks]; exact hr.blocks)
+      (by rw [w_ipb]; exact hr.ipb) hi.ipb_pos
+  have a_order := (hi.alloc kind).1
+  rw [e_id]
+  constructor
+  · unfold nxtAt
+    cases hg : t.order[p]? with
+    | none =>
+      simp only [PTable.prevOf, e_endPrev, w_endPrev, hr.last]
+      intro e
+      rw [lastB_some_eq_some] at e
+      exact a_order (List.mem_of_getLast? e)
+    | some j =>
+      have hm : j ∈ t.order := List.mem_of_getElem? hg
+      simp only [PTable.prevOf]
+      rw [e_prev j (hi.order_lt j hm), w_items]
+      have hdll := hr.order
+      rw [← List.take_append_drop p t.order] at hdll
+      have hsplit := (GSeg_append Nxt.item some _ _ none _ _).1 hdll
+      have hdr : t.order.drop p = j :: t.order.drop (p + 1) := by
+        rw [List.drop_eq_getElem?_toList_append, hg]; rfl
+      rw [hdr] at hsplit
+      simp only [headP, GSeg] at hsplit
+      rw [hsplit.2.2.1]
+      intro e
+      rw [lastB_some_eq_some] at e
+      exact a_order (List.mem_of_mem_take (List.mem_of_getLast? e))
+  · rw [e_heads, w_heads]
+    by_cases ha : pt.allocated = true
+    · simp only [ha, if_true]
+      have ha' : t.allocated = true := by rw [← hr.alloc]; exact ha
+      have hch := hr.chains ha' c
+      have hf := GSeg_first some CellRef.nextOf hch
+      rw [hf]
+      cases hd : t.data c with
+      | nil => simp [headP]
+      | cons x r =>
+        simp only [headP, ne_eq, Option.some.injEq]
+        intro e
+        have : x ∈ t.data c := by rw [hd]; exact List.mem_cons_self
+        exact a_order (e ▸ ((hi.chain_iff ha' c x).1 this).1)
+    · simp [ha]
+/-- in a represented table a live item is not its own predecessor -/
+theorem Rel.prev_ne_self {h : Nat → Nat} {pt : PTable} {t : Table} (hr : Rel pt t) (hi : t.Inv h) (id : Nat)
+    (hm : id ∈ t.order) : (pt.items id).prev ≠ some id := by
+  obtain ⟨l1, l2, ho⟩ := List.append_of_mem hm
+  have hon : (l1 ++ id :: l2).Nodup := ho ▸ hi.order_nodup
+  have hon' := List.nodup_append.1 hon
+  have hid_l1 : id ∉ l1 := fun e => hon'.2.2 id e id List.mem_cons_self rfl
+  have hdll := hr.order
+  rw [ho] at hdll
+  have hdll' := (GSeg_append Nxt.item some l1 (id :: l2) _ _ _).1 hdll
+  have hP : (pt.items id).prev = lastB some none l1 := by
+    have := hdll'.2; simp only [headP, GSeg] at this; exact this.2.1
+  rw [hP]
+  intro e
+  rw [lastB_some_eq_some] at e
+  exact hid_l1 (List.mem_of_getLast? e)
+
 end Nstd.Hash.Ptr
